@@ -33,6 +33,7 @@ TRUSTED_REASONS = {
     'external_body: condense_indices': 'peekable()-based body; contract assumed in Verus, checked by rac:condense_indices (bounded: len<=7, stretch<=3)',
     'external_body: next': 'stub iterators standing for one-line iterator adapters of /repo: number_lint unit (Document::iter_numbers, paste!-generated tokens.iter().filter(is_number): assumed to yield document tokens of kind Number) and mask_parser unit (Mask::iter_allowed: assumed to yield the allowed spans in order with their characters); both assumed to terminate',
     'external_body: iter_numbers': 'see external_body: next',
+    'external_body: iter_quote_indices': 'document unit: stub for the paste!-generated TokenStringExt::iter_quote_indices (tokens.iter().enumerate().filter(is_quote).map(index)) + collect(): ASSUMED to yield exactly the positions of the quote tokens, in increasing order',
     'external_body: iter_allowed': 'mask_parser unit: Mask::iter_allowed is a one-line iterator adapter (allowed.iter().map(|s| (*s, s.get_content(source)))); ASSUMED to yield the allowed spans in order, each with the characters it covers (stub AllowedIter::next, covered by the generic `next` entry)',
     'external_body: correct_suffix_for': 'number_lint unit: an arbitrary total function (sp_correct); its correctness is the Kani full-domain harness number.suffix_full_domain',
     'uninterp: sp_correct': 'what correct_suffix_for returns',
@@ -47,9 +48,7 @@ TRUSTED_REASONS = {
     #     under `assumptions`, with the bounded harness that checks it, if any) ---
     'external_body: remove_indices': 'callee contract in the callers\' units (modular verification); the body is verified against the same contract in unit vec_ext',
     'external_body: vec_retain_flags': 'desugaring R9: std Vec::retain keeps, in order, exactly the elements for which the closure returned true, calling it once per element in the original order (std documentation); used by unit vec_ext only',
-    'external_body: lex_tabs': 'take_while().count(); Kani-bounded',
-    'external_body: lex_spaces': 'take_while().count(); Kani-bounded',
-    'external_body: lex_newlines': 'take_while().count(); Kani-bounded',
+    'external_body: axiom_char_slice_bytes': 'machine fact: an allocation is at most isize::MAX bytes and a char is 4 bytes, so a [char] has fewer than usize::MAX/2 elements (needed for `count * 2` in lex_tabs)',
     'external_body: lex_hex_number': 'String / from_str_radix; Kani-bounded',
     'external_body: lex_number': 'str::parse::<f64>; not checked by anything',
     'external_body: lex_url': 'split/tuple_windows iterator code; Kani-bounded',
